@@ -295,3 +295,30 @@ func fmtState(gs *pokerface.GameState) string {
 	}
 	return s
 }
+
+// trackAfter returns the strictest reading of the minimum raise that will
+// hold once this delivery is accounted for (the oracles run before
+// updateTrack).
+func (r *run) trackAfter(d *delivery, cl opClass, accepted bool) int64 {
+	t := r.tr
+	post := d.post
+	if post.Status.Round != t.round {
+		if post.Status.Round == "preflop" {
+			return r.initialFull()
+		}
+		return 0
+	}
+	hi := t.lastFull
+	if t.lastAny > hi {
+		hi = t.lastAny
+	}
+	if t.lastAct > hi {
+		hi = t.lastAct
+	}
+	if accepted && cl.seat >= 0 {
+		if inc := post.Status.CurrentWager - d.pre.Status.CurrentWager; inc > hi {
+			hi = inc
+		}
+	}
+	return hi
+}
